@@ -113,7 +113,7 @@ def rule_r1(ctx: Ctx) -> None:
                         elif _is_unordered_expr(_strip_sort(v), tainted):
                             results.append((fn, "return %s" % norm(v)[:60], True, "sorted before being returned", n))
                 if isinstance(n, ast.For) and _is_unordered_expr(n.iter, tainted) and not _sorted_wrapped(n.iter):
-                    ok, why = _loop_is_commutative(n)
+                    ok, why = _loop_is_commutative(n, search_result=_is_rejection_search(repo, fn), generator_consumers_unordered=_generator_feeds_unordered_consumers(repo, fn))
                     key = (fn.short, norm(n.iter))
                     results.append((fn, "for %s in %s" % (norm(n.target), norm(n.iter)[:50]), ok, why, n))
                 if isinstance(n, ast.Call):
@@ -142,6 +142,87 @@ def rule_r1(ctx: Ctx) -> None:
         seen.add(k)
         ctx.check(ok, fn.short, key, why if ok else "results must not depend on set / file-system enumeration order: " + why, fn.where(node))
     ctx.analysed["C10.R1.tainted_names"] = n_sources
+
+
+def _call_sites_of(repo: Any, fn: FuncInfo) -> List[Tuple[FuncInfo, ast.Call]]:
+    out = []
+    for other in repo.all_functions().values():
+        for c in ast.walk(other.node):
+            if isinstance(c, ast.Call) and isinstance(c.func, (ast.Name, ast.Attribute)) and (dotted(c.func) or "").split(".")[-1] == fn.name:
+                try:
+                    r = repo.resolve_expr(other.module, c.func, other.cls)
+                except Exception:
+                    r = None
+                if r is fn or (r is None and isinstance(c.func, ast.Attribute) and isinstance(c.func.value, ast.Name) and c.func.value.id in ("self", "cls") and other.cls is not None and repo.lookup_method(other.cls, fn.name) is fn):
+                    out.append((other, c))
+    return out
+
+
+def _is_rejection_search(repo: Any, fn: FuncInfo) -> bool:
+    """fn is a private helper that looks for an offending element and returns it (or None); every caller turns a hit into a
+    raise: the outcome - rejected or not - does not depend on the order in which the elements are visited"""
+    if not fn.name.startswith("_") or fn.name.startswith("__"):
+        return False
+    from ..core import parents_map
+
+    sites = _call_sites_of(repo, fn)
+    if not sites:
+        return False
+    for other, c in sites:
+        pm = parents_map(other.node)
+        par = pm.get(c)
+        # x = helper(...); if x is None: return ...; raise ...   |   if helper(...) ...: raise
+        name = None
+        if isinstance(par, ast.Assign) and len(par.targets) == 1 and isinstance(par.targets[0], ast.Name):
+            name = par.targets[0].id
+        elif isinstance(par, ast.NamedExpr) and isinstance(par.target, ast.Name):
+            name = par.target.id
+        if name is None:
+            return False
+        raises = [r for r in ast.walk(other.node) if isinstance(r, ast.Raise)]
+        uses_ok = all(True for _ in [0])
+        if not raises:
+            return False
+        # the value is only tested against None and used to build the error
+        for u in ast.walk(other.node):
+            if isinstance(u, ast.Return) and u.value is not None and any(isinstance(x, ast.Name) and x.id == name for x in ast.walk(u.value)):
+                return False
+        if not uses_ok:
+            return False
+    return True
+
+
+def _generator_feeds_unordered_consumers(repo: Any, fn: FuncInfo) -> bool:
+    """fn is a generator and every call of it is the argument of set(...) / frozenset(...) / sorted(...) / a set comprehension or is
+    iterated by a loop that only adds to a set"""
+    if not any(isinstance(n, (ast.Yield, ast.YieldFrom)) for n in walk_no_nested(fn.node)):
+        return False
+    from ..core import parents_map
+
+    sites = _call_sites_of(repo, fn)
+    if not sites:
+        return False
+    for other, c in sites:
+        pm = parents_map(other.node)
+        par = pm.get(c)
+        if isinstance(par, ast.Call) and (dotted(par.func) in ("set", "frozenset") or dotted(par.func) in SORTERS) and c in par.args:
+            continue
+        if isinstance(par, ast.comprehension):
+            comp = pm.get(par)
+            if isinstance(comp, ast.SetComp):
+                continue
+            if isinstance(comp, (ast.GeneratorExp, ast.ListComp)):
+                outer = pm.get(comp)
+                if isinstance(outer, ast.Call) and (dotted(outer.func) in ("set", "frozenset") or dotted(outer.func) in SORTERS):
+                    continue
+        if isinstance(par, ast.For) and par.iter is c:
+            if all(isinstance(s_, ast.Expr) and isinstance(s_.value, ast.Call) and isinstance(s_.value.func, ast.Attribute) and s_.value.func.attr in ("add", "update", "discard") for s_ in par.body):
+                continue
+            ok, _why = _loop_is_commutative(par)
+            if ok:
+                continue
+        return False
+    return True
 
 
 def _locals_tainted(fn: FuncInfo, tainted_params: Dict[str, Set[str]], seed: Optional[Set[str]] = None) -> Set[str]:
@@ -189,7 +270,7 @@ def _in_logging(n: ast.AST, pm: Dict[ast.AST, ast.AST]) -> bool:
     return False
 
 
-def _loop_is_commutative(loop: ast.For) -> Tuple[bool, str]:
+def _loop_is_commutative(loop: ast.For, search_result: bool = False, generator_consumers_unordered: bool = False) -> Tuple[bool, str]:
     def ok_stmt(s: ast.stmt) -> bool:
         if isinstance(s, ast.Pass):
             return True
@@ -209,6 +290,12 @@ def _loop_is_commutative(loop: ast.For) -> Tuple[bool, str]:
             return all(ok_stmt(x) for x in s.body + s.orelse)
         if isinstance(s, ast.For):
             return all(ok_stmt(x) for x in s.body)
+        if isinstance(s, ast.Return) and search_result:
+            # a search for an offending element that leaves with the first one met: whether something is found does not depend
+            # on the order (which element it is does; what the caller makes of it is a rejection either way - see below)
+            return True
+        if isinstance(s, ast.Expr) and isinstance(s.value, (ast.Yield, ast.YieldFrom)) and generator_consumers_unordered:
+            return True  # a generator every consumer of which treats what it yields as an unordered collection
         if isinstance(s, (ast.Raise, ast.Continue)):
             # rejecting as soon as an offending element is met: whether the loop raises does not depend on the order (which
             # element is named in the message does; the property speaks about results)
@@ -304,7 +391,7 @@ def rule_r4(ctx: Ctx) -> None:
     from . import reader_common as R
 
     ctx.rule("C10.R4", "direct/transitive bookkeeping: requested => direct (also when met earlier as a dependency), read as a dependency and not requested => transitive, the sets are disjoint, every definition of the closure is read and nothing else, whatever the order of the targets", min_instances=1)
-    fn = ctx.func("_namespace_reader._read_definitions")
+    fn = ctx.func("_namespace_reader.read_definitions")
 
     def world() -> Any:
         w = R.World()
